@@ -1,7 +1,41 @@
 import BpModel.All
 import BpProofs.Load
+import BpProofs.Evolution
 /-
   C08 — unknown fields survive decode/encode; schema evolution is lossless.
+
+  RECORD LEVEL (`raw_concat`, `unknown_kept`, `unknown_reemitted`, `known_unaffected`,
+  `known_records_reparse`): for every schema, every accepted byte string, any field numbers and
+  wire types — the framing loses no byte, unknown records are kept byte for byte in arrival
+  order and re-emitted after the known fields, and do not disturb the known fields.
+
+  END TO END (`evolution_roundtrip`, `evolution_detail`, `evolution_total`; proofs in
+  BpProofs/Evolution.lean, EvoMsg.lean, EvoProj.lean, EvoKeep.lean, EvoAgree.lean): the
+  property's evolution clause, in full.  Setting: two schemas that agree on every class except
+  `c`; the older class `c` keeps ANY sub-list of the fields of the newer class (same `FieldD`
+  records, same relative order: fields dropped at the front, in the middle, at the end; oneof
+  groups may lose all, some or none of their members, the selected one included) and the same
+  number of oneof groups; no field of the newer schema refers to class `c` as sub-message or
+  map-value class (so nested payloads are read identically by both programs; decidable:
+  `evoB`, `schemaFreeB`, `olderB`).  For EVERY well-typed message `m` (`MsgOk`, the domain of
+  the round-trip theorem C01: all scalar kinds, optional, oneof, repeated packed / unpacked,
+  nested / recursive / repeated sub-messages, Timestamp / Duration, wrappers, maps, arbitrary
+  unknown bytes) whose encoding is shorter than 2^64 bytes:
+      bytes(m) --older program: parse--> mo --older program: bytes--> bs' --newer: parse--> m'
+  all three steps succeed, and `m'` has the class, the oneof selection `cur` (also of groups
+  whose selected member the older class dropped: it travels through the unknown bytes) and the
+  unknown bytes `unk` of `m`, and slot values equivalent to those of `m` in the sense of C01
+  (`ValEqv`); indeed `m'` IS what the newer program reads `bytes(m)` as (`evolution_detail`,
+  which also says what the older program holds and writes: kept slots, renumbered selection,
+  dropped records appended to the unknown bytes in arrival order; `bs'` = known records, then
+  unknown records, a rearrangement of the records of `bytes(m)` of the same length).
+  Ingredients: C01 for both schemas (on `m`, and on the projection of `m` onto the kept fields,
+  which is well-typed in the older schema), the unknown-record lemmas above, and C02
+  (`foldFields_core_filter`: unknown records anywhere; `foldFields_perm`: reordering records of
+  different fields / groups).
+  NOT COVERED (no counterexample known): an evolving class that is referred to by a field
+  (its own or another class's) — then the older program also re-orders records INSIDE nested
+  payloads; changes other than dropping fields (renumbering, type changes).
 -/
 namespace Bp.C08
 open Bp Gen
@@ -82,4 +116,69 @@ example : (parse oldS 0 [0x08, 0x05, 0x12, 0x02, 0x68, 0x69, 0x18, 0x07]).bind (
 example : dumpVal oldS (.msg 0 [.int 5] true [0x12, 0x02, 0x68, 0x69, 0x18, 0x07] [])
     = .ok [0x08, 0x05, 0x12, 0x02, 0x68, 0x69, 0x18, 0x07] := by decide
 
+/-! ### schema evolution, end to end -/
+
+/-- **schema evolution is lossless**: newer schema `Sn`, older schema `So`, identical except for
+    class `c` whose older version keeps a sub-list of the fields (`Older`); nothing refers to
+    class `c` (`SchemaFree`).  A well-typed message written with `Sn`, read and re-written with
+    `So`, and read again with `Sn` comes back with the same class, oneof selection and unknown
+    bytes and with equivalent slot values (`ValEqv`, as in C01). -/
+theorem evolution_roundtrip (Sn So : Schema) (c : Nat) (dn dold : MsgD)
+    (hn : Sn[c]? = some dn) (ho : So[c]? = some dold) (hagree : ∀ c', c' ≠ c → So[c']? = Sn[c']?)
+    (hfree : SchemaFree c Sn) (hold : Older dn dold)
+    (sl : List Val) (ow : Bool) (unk : Bytes) (cur : List (Option Nat))
+    (hm : MsgOk Sn (.msg c sl ow unk cur)) (bs : Bytes)
+    (hdump : dumpVal Sn (.msg c sl ow unk cur) = .ok bs) (hbl : bs.length < 2 ^ 64) :
+    ∃ mo bs' sl', parse So c bs = .ok mo ∧ dumpVal So mo = .ok bs'
+      ∧ parse Sn c bs' = .ok (.msg c sl' true unk cur)
+      ∧ ValEqv Sn (.msg c sl ow unk cur) (.msg c sl' true unk cur) :=
+  Bp.evolution_roundtrip_older Sn So c dn dold hn ho hagree hfree hold sl ow unk cur hm bs hdump hbl
+
+/-- … without an encoding hypothesis (every `MsgOk` value can be encoded) -/
+theorem evolution_total {Sn So : Schema} {c : Nat} {dn dold : MsgD} {mask : List Bool}
+    (E : Evo Sn So c dn dold mask) (sl : List Val) (ow : Bool) (unk : Bytes) (cur : List (Option Nat))
+    (hm : MsgOk Sn (.msg c sl ow unk cur)) :
+    ∃ bs, dumpVal Sn (.msg c sl ow unk cur) = .ok bs ∧ (bs.length < 2 ^ 64 →
+      ∃ mo bs' sl', parse So c bs = .ok mo ∧ dumpVal So mo = .ok bs'
+        ∧ parse Sn c bs' = .ok (.msg c sl' true unk cur)
+        ∧ ValEqv Sn (.msg c sl ow unk cur) (.msg c sl' true unk cur)) :=
+  Bp.evolution_roundtrip_total E sl ow unk cur hm
+
+/-- **the three steps in detail** (`E : Evo …` bundles the setting with the mask of kept fields):
+    what the older program holds (`slo`: the kept slots up to `ValEqv So`; `projCur mask cur`:
+    the selection renumbered, unselected where the selected member was dropped; unknown bytes
+    = the dropped records in arrival order, then those of `m`), what it writes (`bs'`: the records
+    of `bs` it knows, then those it does not, each in arrival order; same length), and that the
+    newer program reads `bs'` exactly as it reads `bs` -/
+theorem evolution_detail {Sn So : Schema} {c : Nat} {dn dold : MsgD} {mask : List Bool}
+    (E : Evo Sn So c dn dold mask) (sl : List Val) (ow : Bool) (unk : Bytes) (cur : List (Option Nat))
+    (hm : MsgOk Sn (.msg c sl ow unk cur)) (bs : Bytes)
+    (hdump : dumpVal Sn (.msg c sl ow unk cur) = .ok bs) (hbl : bs.length < 2 ^ 64) :
+    ∃ (pfs : List PField) (dropped : Bytes) (slo sl' : List Val) (bs' : Bytes),
+      loadFields bs = .ok pfs
+      ∧ dropped ++ unk = joinRaw (pfs.filter (isUnknownField dold))
+      ∧ bs' = joinRaw (pfs.filter fun pf => !isUnknownField dold pf) ++ joinRaw (pfs.filter (isUnknownField dold))
+      ∧ bs'.length = bs.length
+      ∧ parse So c bs = .ok (.msg c slo true (dropped ++ unk) (projCur mask cur))
+      ∧ ValEqv So (.msg c (keep mask sl) ow (dropped ++ unk) (projCur mask cur))
+          (.msg c slo true (dropped ++ unk) (projCur mask cur))
+      ∧ dumpVal So (.msg c slo true (dropped ++ unk) (projCur mask cur)) = .ok bs'
+      ∧ parse Sn c bs' = .ok (.msg c sl' true unk cur)
+      ∧ parse Sn c bs = .ok (.msg c sl' true unk cur)
+      ∧ ValEqv Sn (.msg c sl ow unk cur) (.msg c sl' true unk cur) :=
+  Bp.evolution_detail E sl ow unk cur hm bs hdump hbl
+
+/-! non-vacuity of the evolution theorem: `Bp.EvoEx` (BpProofs/Evolution.lean) — a class with a
+    string field dropped in the middle, a dropped repeated field and a dropped SELECTED oneof
+    member, a message with unknown bytes; `evoB` / `msgOkB` decide the hypotheses, the three
+    steps are evaluated on the model -/
+example : evoB EvoEx.SN EvoEx.SO 1 = true := by decide
+example : ((dumpVal EvoEx.SN EvoEx.m).bind fun b => (parse EvoEx.SO 1 b).bind fun o => dumpVal EvoEx.SO o)
+    = .ok [8, 5, 26, 2, 8, 7, 18, 2, 104, 105, 34, 2, 2, 3, 42, 1, 65, 72, 1] := by decide +kernel
+example : parse EvoEx.SN 1 [8, 5, 26, 2, 8, 7, 18, 2, 104, 105, 34, 2, 2, 3, 42, 1, 65, 72, 1] = .ok EvoEx.m := by rfl
+
 end Bp.C08
+
+#print axioms Bp.C08.evolution_roundtrip
+#print axioms Bp.C08.evolution_total
+#print axioms Bp.C08.evolution_detail
